@@ -237,6 +237,11 @@ theorem FS.locateFrom_lex (fs : FS) (start cs n : List Comp) (h : fs.locateFrom 
 
 /-! ## `~/` literals -/
 
+theorem specTarget_none (fs : FS) (file : List Comp) (t : Text) (hang : isAngle t = false) :
+    specTarget fs none file t =
+      fs.locateFrom (if (parsePath t).abs then [] else file.dropLast) (parsePath t).comps := by
+  simp [specTarget, hang]
+
 theorem noHomeL_lookup (bs : List (Text × Val)) (k : Text) (v : Val)
     (h : noHomeL bs = true) (hk : bs.lookup k = some v) : v.noHome = true := by
   induction bs with
